@@ -160,6 +160,20 @@ def gen_norm(rng):
         if not flat[f].any():
           flat[f, 0] = True
       c['mask'] = np.moveaxis(flat.reshape(mm.shape), 0, c['axis'] % rank).tolist()
+  if c.get('mask') is not None and rng.random() < 0.5:
+    # a mask that is only broadcastable to the input: some axes have size 1 (e.g. a per-token padding mask (B, T, 1))
+    m = np.array(c['mask'], dtype=bool)
+    axes = [a for a in range(rank) if rng.random() < 0.5]
+    small = m
+    for a in axes:
+      small = np.take(small, [0], axis=a)
+    full = np.broadcast_to(small, m.shape)
+    ok = True
+    if kind == 'batch':
+      fm = np.moveaxis(full, c['axis'] % rank, 0).reshape(m.shape[c['axis'] % rank], -1)
+      ok = bool(fm.any(axis=1).all())
+    if ok:
+      c['mask'] = small.tolist()
   c['scale'], c['bias'] = ints(rng, fshape, -2, 3), ints(rng, fshape, -2, 2)
   return c
 
